@@ -36,6 +36,10 @@ FAULT_POINTS = [
     {"kind": "orphan", "life": "inf", "d": 0.2},
     {"kind": "orphan", "life": 6.0, "d": 0.2},
     {"kind": "orphan", "life": 0.5, "d": 0.1},
+    # the function reports progress while it works: a little output again and again, never a silent second
+    {"kind": "drip", "every": 0.4, "text": "working...\n", "stream": "out", "for": "inf", "d": 0.2},
+    {"kind": "drip", "every": 0.7, "text": "still at it\n", "stream": "err", "for": "inf", "d": 0.3},
+    {"kind": "drip", "every": 0.3, "text": ".", "stream": "err", "for": 2.5, "d": 0.2},
 ]
 for _p in FAULT_POINTS:
     if isinstance(_p.get("b"), dict):
@@ -79,6 +83,14 @@ def clock_jumps(r, p=0.2):
             for _ in range(r.between(1, 40))]
 
 
+def sched_knobs(r):
+    """scheduling decisions and pre-emption period - consumed only if the SUT runs more than one thread or an event
+    loop with several things pending; a sequential SUT never looks at them"""
+    if r.chance(0.5):
+        return {"sched": [], "preempt_every": 0}
+    return {"sched": [r.below(6) for _ in range(r.between(1, 60))], "preempt_every": r.choice([0, 300, 3000, 30000])}
+
+
 def random_fault(r, kinds=None):
     pts = [p for p in FAULT_POINTS if p["kind"] != "ok" and (kinds is None or p["kind"] in kinds)]
     p = dict(r.choice(pts))
@@ -88,6 +100,8 @@ def random_fault(r, kinds=None):
         p["k"] = r.between(0, 6)
     if p["kind"] == "orphan" and p["life"] != "inf":
         p["life"] = round(r.uniform(0.1, 25.0), 2)
+    if p["kind"] == "drip":
+        p["every"] = round(r.uniform(0.05, 0.95), 2)
     return p
 
 
@@ -129,6 +143,8 @@ def c10_sweep_specs(corp, helper_counts):
     helper_counts: entry id -> number of helper invocations of a fault-free compile"""
     specs = []
     for e in corp.constexpr_entries:
+        if "_shifted" in e["id"]:
+            continue  # same evaluation script as the unshifted entry
         n_inv = max(1, helper_counts.get(e["id"], 1))
         for idx in range(n_inv):
             for fp in FAULT_POINTS:
@@ -208,7 +224,7 @@ def c10_random_spec(seed, k, corp, hash_seeds):
                 clean["recheck"] = True
                 ops.append(clean)
     return {"property": "C10", "kind": "api", "hash_seed": r.choice(hash_seeds), "origin": "random", "k": k,
-            "knobs": {"step_clock": True, "do_timing": r.chance(0.1), "clock_jumps": clock_jumps(r)}, "ops": ops}
+            "knobs": dict({"step_clock": True, "do_timing": r.chance(0.1), "clock_jumps": clock_jumps(r)}, **sched_knobs(r)), "ops": ops}
 
 
 def c10_typing_all_specs(corp, chunk=24):
@@ -236,17 +252,31 @@ _SIBLINGS = [("K/same_call_body0", "K/same_call_body1"), ("K/same_call_body1", "
              ("O/dir_compact", "O/plain"), ("O/dir_multi", "O/plain"), ("O/dir_tco", "O/plain"),
              ("O/dir_comments_all", "O/plain"), ("O/dir_several_lines", "M/enum_operand"),
              ("D/alias_true", "D/plain_then"), ("D/alias_name", "D/plain_then"), ("D/alias_db", "M/int_small"),
-             ("D/stack_ref", "D/stack_self"), ("D/define", "D/define#1"), ("L/libs3", "L/libs2"), ("L/libs4", "L/alias")]
+             ("D/stack_ref", "D/stack_self"), ("D/define", "D/define#1"), ("L/libs3", "L/libs2"), ("L/libs4", "L/alias"),
+             ("K/raises_shifted", "K/raises"), ("K/raises", "K/raises_shifted"), ("K/raises_custom_shifted", "K/raises_custom"),
+             ("K/undefined_name_shifted", "K/undefined_name"), ("K/sys_exit3_shifted", "K/sys_exit3"), ("K/spins_shifted", "K/spins"),
+             ("K/same_call_body0_shifted", "K/same_call_body0"), ("K/returns_nan_shifted", "K/returns_nan"),
+             ("K/nested_constexpr", "K/nested_constexpr#1"), ("K/nested_constexpr#1", "K/nested_constexpr"),
+             ("D/generic_devices_numeric", "M/batch_positive_hash_compact"), ("D/generic_devices_numeric2", "M/batch_positive_hash_compact"),
+             ("D/generic_devices_numeric", "M/int_large"), ("M/batch_positive_hash_compact", "D/generic_devices_numeric"),
+             ("O/dir_multi", "M/batch_positive_hash"), ("O/dir_compact", "D/plain_then"),
+             ("L/unused_extra", "L/libs2"), ("L/unused_extra", "L/unused_extra#1"), ("M/prefix_names", "M/prefix_names_pragma")]
 
 
-def c11_spec(seed, k, corp, hash_seeds):
-    r = Rng(seed, "C11", k)
+def c11_spec(seed, k, corp, hash_seeds, soak=False):
+    """soak=True: a long history (60-300 requests) over a small pool of distinct requests - what a game session
+    looks like to the one long-lived daemon process; cheap, because references are per distinct request"""
+    r = Rng(seed, "C11soak" if soak else "C11", k)
     all_f = ["R", "M", "K", "O", "D", "L", "E"]
     nf = r.weighted([(1, 2), (2, 4), (3, 3), (7, 2)])
     fams = all_f if nf == 7 else r.sample(all_f, nf)
     fault_rate = r.choice([0.0, 0.0, 0.0, 0.2])
     length = r.weighted([(2, 4), (3, 4), (4, 3), (6, 3), (9, 2), (14, 1), (22, 1), (30, 1)])
-    palette = [random_options(r) for _ in range(r.between(1, 4))]
+    pool = None
+    if soak:
+        length = r.weighted([(60, 3), (120, 2), (300, 1)])
+        pool = [corp.pick(r, fams) for _ in range(r.between(4, 10))]
+    palette = [random_options(r) for _ in range(r.between(1, 2 if soak else 4))]
     shared_options = random_options(r)
     style_w = [("obj", r.between(1, 6)), ("dict", r.between(0, 4)), ("none", r.between(0, 2)), ("shared", r.between(0, 5))]
     sib = dict()
@@ -254,9 +284,14 @@ def c11_spec(seed, k, corp, hash_seeds):
         sib.setdefault(a, []).append(b)
     ops = []
     used = []
+    opening = list(r.choice(_SIBLINGS)) if r.chance(0.35) else []
+    streak_style = None
     for i in range(length):
         e = None
-        if used and r.chance(0.35):
+        if opening:
+            # the first requests of a fresh process decide how lazily initialised state gets initialised
+            e = corp.by_id.get(opening.pop(0))
+        if e is None and used and r.chance(0.35):
             prev = r.choice(used)
             if r.chance(0.5):
                 op = json.loads(json.dumps(prev))  # exact repeat (same source, same options)
@@ -272,8 +307,11 @@ def c11_spec(seed, k, corp, hash_seeds):
             if cand:
                 e = corp.by_id.get(r.choice(cand))
         if e is None:
-            e = corp.pick(r, fams)
+            e = r.choice(pool) if pool else corp.pick(r, fams)
         style = r.weighted(style_w)
+        if streak_style is not None and r.chance(0.6):
+            style = streak_style  # the same caller tends to call the same way
+        streak_style = style if style in ("none", "shared", "dict") else None
         if style == "shared":
             opts = shared_options
         elif style == "none":
@@ -288,15 +326,15 @@ def c11_spec(seed, k, corp, hash_seeds):
             op["helpers"] = helper_plans(r, 3, fault_rate)
         ops.append(op)
         used.append(op)
-    return {"property": "C11", "kind": "api", "hash_seed": r.choice(hash_seeds), "origin": "random", "k": k,
-            "knobs": {"step_clock": r.chance(0.15), "do_timing": False, "clock_jumps": clock_jumps(r)},
+    return {"property": "C11", "kind": "api", "hash_seed": r.choice(hash_seeds), "origin": "soak" if soak else "random", "k": k,
+            "knobs": dict({"step_clock": r.chance(0.15), "do_timing": False, "clock_jumps": clock_jumps(r)}, **sched_knobs(r)),
             "shared_options": shared_options, "ops": ops}
 
 
 # ----------------------------------------------------------------------------------------------
 # C14
-def c14_spec(seed, k, corp, hash_seeds):
-    r = Rng(seed, "C14", k)
+def c14_spec(seed, k, corp, hash_seeds, soak=False):
+    r = Rng(seed, "C14soak" if soak else "C14", k)
     all_f = ["R", "M", "K", "O", "E", "D", "L"]
     fams = r.sample(all_f, r.between(1, 4))
     junk_rate = r.choice([0.0, 0.15, 0.4, 0.8])
@@ -304,7 +342,12 @@ def c14_spec(seed, k, corp, hash_seeds):
     mode = r.weighted([("lockstep", 5), ("pipelined", 5)])
     window = r.between(2, 8) if mode == "pipelined" else 1
     length = r.weighted([(1, 3), (2, 4), (3, 4), (5, 3), (8, 2), (14, 1), (25, 1), (40, 1)])
-    palette = [random_options(r) for _ in range(r.between(1, 3))]
+    pool = None
+    if soak:
+        length = r.weighted([(60, 3), (120, 2), (300, 1)])
+        pool = [corp.pick(r, fams) for _ in range(r.between(3, 8))]
+        junk_rate = min(junk_rate, 0.4)
+    palette = [random_options(r) for _ in range(r.between(1, 2 if soak else 3))]
     junk = C.family_J(r.below(2))
     lines = []
     prev_req = None
@@ -324,7 +367,7 @@ def c14_spec(seed, k, corp, hash_seeds):
                 ln = json.loads(json.dumps(prev_req))  # the editor resends the same buffer
                 ln.pop("helpers", None)
             else:
-                e = corp.pick(r, fams)
+                e = r.choice(pool) if pool else corp.pick(r, fams)
                 opts = dict(r.choice(palette))
                 extra = {"lineno": r.between(-1, 40), "column": r.between(-1, 80)} if r.chance(0.5) else None
                 ln = {"kind": "request", "entry": e["id"], "raw": C.request_line(e["src"], opts, extra),
@@ -366,5 +409,6 @@ def c14_spec(seed, k, corp, hash_seeds):
         # capacity of the never-drained stderr pipe: 4 KiB (anonymous pipe as .NET creates it on Windows) or
         # 64 KiB (Linux).  With the timing knob on the SUT prints by design, so the sink is unbounded there.
         sess["stderr_capacity"] = r.choice([4096, 65536])
-    return {"property": "C14", "kind": "daemon", "hash_seed": r.choice(hash_seeds), "origin": "random", "k": k,
-            "knobs": {"step_clock": r.chance(0.1), "do_timing": do_timing, "clock_jumps": clock_jumps(r)}, "session": sess}
+    return {"property": "C14", "kind": "daemon", "hash_seed": r.choice(hash_seeds), "origin": "soak" if soak else "random", "k": k,
+            "knobs": dict({"step_clock": r.chance(0.1), "do_timing": do_timing, "clock_jumps": clock_jumps(r)}, **sched_knobs(r)),
+            "session": sess}
